@@ -339,6 +339,10 @@ func genC14Plan(r *zsim.Rng) *sysPlan {
 		}
 		ps.Endless = r.Chance(1, 6)
 		ps.Fork = r.Chance(1, 3)
+		if !ps.Fork && r.Chance(1, 8) {
+			// the input command leaves a process behind, outside its process group, that holds the pipe
+			ps.DetachMs = []int{60000, 3600000}[r.Intn(2)]
+		}
 		p.GenProc = append(p.GenProc, ps)
 	}
 	p.DsrMs = r.Intn(3)
